@@ -95,6 +95,31 @@ func c08(r *core.Run) {
 		})
 		r.Check("C08.K1", core.Key("C08.K1", fn, "length recovery uses ChunkSize and ReferenceSize"), fn.Pos(), usesChunk && usesRef,
 			"the decrypting reader recovers payload lengths with the writer's chunk size and 64-byte references", "decryptChunkData's length recovery no longer uses boson.ChunkSize / (HashSize+KeyLength)")
+		// I1/P2: the number of payload bytes kept is reduced from the span until it fits a
+		// chunk (the interval analysis proves <= ChunkSize at the strip), and it is computed
+		// from the span by arithmetic only — never replaced by a constant (a clamp would keep
+		// padding bytes for trees deeper than one level).
+		ia := core.Intervals(fn)
+		n := 0
+		core.EachInstr(fn, func(_ *ssa.BasicBlock, _ int, in ssa.Instruction) {
+			sl, ok := in.(*ssa.Slice)
+			if !ok || sl.High == nil {
+				return
+			}
+			if _, isC := core.ConstInt(sl.High); isC {
+				return
+			}
+			n++
+			iv := ia.ValueAt(sl.High, sl)
+			r.Check("C08.I1", core.Key("C08.I1", fn, "payload length reduced until it fits a chunk"), sl.Pos(), !ia.Incomplete && iv.Hi <= chunk,
+				"at the strip the payload length is proven <= ChunkSize: the span is reduced level by level until it fits", fmt.Sprintf("the payload length can reach %s at the strip: the span-to-length reduction stops before the length fits one chunk (trees deeper than the reduction handles are mis-stripped or panic)", fmtBound(iv.Hi)))
+			r.Check("C08.P2", core.Key("C08.P2", fn, "payload length computed from the span by arithmetic only"), sl.Pos(), arithmeticOf(sl.High, func(v ssa.Value) bool {
+				c, _ := core.CallOf(v)
+				return c != nil && core.IsCallTo(c, "(encoding/binary.littleEndian).Uint64")
+			}),
+				"the kept length is the span pushed through the ceil-divide/multiply reduction, with no constant substituted on any path", "on some path the payload length is a constant (clamp) or comes from something other than the decrypted span: padding bytes are kept as payload")
+		})
+		r.Floor("C08.I1", "variable-length strips in decryptChunkData", n, 1)
 	}
 	// G1 Encrypt / Decrypt padding rules
 	const E = "pkg/encryption.Encryption"
@@ -325,6 +350,17 @@ func c09(r *core.Run) {
 			"in every iteration the reference is reported before the iteration can continue or descend", "an in-loop path bypasses the callback (a reference can be skipped)")
 		r.Check("C09.F1", core.Key("C09.F1", pc, "callback error returned"), c.Pos(), errReturned(pc, c),
 			"a callback error aborts the traversal and is returned", "processChunkAddresses drops the callback's error")
+		// P2: each reference is classified (data chunk vs. subtree to descend) by the section
+		// size computed for its own position in the chunk
+		secs := core.Calls(pc, "pkg/file/joiner.subtrieSection")
+		r.Floor("C09.P2", "subtrieSection calls in processChunkAddresses", len(secs), 1)
+		for _, sc := range secs {
+			a := core.Common(sc).Args
+			okSec := len(a) == 4 && a[0] == ssa.Value(data) && cursor != nil && (a[1] == cursor || core.SameExpr(a[1], cursor)) &&
+				loadsField(J, "refLength")(core.Forward(a[2])) && a[3] == ssa.Value(pc.Params[4])
+			r.Check("C09.P2", core.Key("C09.P2", pc, "section size of the reference at the cursor"), sc.Pos(), okSec,
+				"the data-chunk / subtree decision for a reference uses subtrieSection(data, cursor, j.refLength, subTrieSize) at that reference's own cursor", "the section size is not computed for the reported reference's own position (the last reference of a chunk can sit on a shallower level than the first): a data chunk is descended into or a subtree is listed as a data chunk")
+		}
 	}
 	// recursion passes the same callback
 	okRec := false
